@@ -50,10 +50,10 @@ class Case:
         return c
 
 
-def gen_case(rng, backend: Optional[str] = None, nevents: int = EVENTS_PER_QUERY, empty_bias=0.25, **genkw) -> Case:
+def gen_case(rng, backend: Optional[str] = None, nevents: int = EVENTS_PER_QUERY, empty_bias=0.25, family: str = "top", **genkw) -> Case:
     b = backend or rng.choice(P.BACKENDS)
     g = qgen.Gen(rng, b, **genkw)
-    q, names, form = g.top()
+    q, names, form = g.top_first_mix() if family == "first_mix" else g.top()
     banks = qgen.banks_used(q)
     evs = [qgen.gen_event(rng, b, banks, empty_bias=empty_bias) for _ in range(nevents)]
     return Case(b, q, names, form, evs)
